@@ -14,7 +14,7 @@ import (
 	"verifharness/internal/vl"
 )
 
-func run(repo, dir string, seed uint64, tier, thriftgo, plug string) int {
+func run(repo, dir string, seed uint64, tier, thriftgo, plug, variants string) int {
 	dir, _ = filepath.Abs(dir)
 	repo, _ = filepath.Abs(repo)
 	sc, err := c11lib.Extract(repo)
@@ -31,10 +31,10 @@ func run(repo, dir string, seed uint64, tier, thriftgo, plug string) int {
 		fmt.Fprintln(os.Stderr, err)
 		return 1
 	}
-	h := &harness{repo: repo, sc: sc, out: vl.NewOut(dir), r: vl.NewRng(seed), work: work, tier: tier, thriftgo: thriftgo, plug: plug}
-	nReq, nSyn, nTree, nStr, nProc := 160, 60, 120, 300, 24
+	h := &harness{repo: repo, sc: sc, out: vl.NewOut(dir), r: vl.NewRng(seed), work: work, tier: tier, thriftgo: thriftgo, plug: plug, variants: parseVariants(variants)}
+	nReq, nSyn, nTree, nStr, nProc := 160, 60, 120, 300, 0 // process: the whole catalogue + nProc random scenarios
 	if tier == "thorough" {
-		nReq, nSyn, nTree, nStr, nProc = 1500, 600, 1000, 3000, 120
+		nReq, nSyn, nTree, nStr, nProc = 1500, 600, 1000, 3000, 80
 	}
 	// repaired defects first
 	if thriftgo != "" && plug != "" {
@@ -54,6 +54,16 @@ func run(repo, dir string, seed uint64, tier, thriftgo, plug string) int {
 	h.out.Close()
 	os.RemoveAll(work)
 	return 0
+}
+
+func parseVariants(s string) map[string]string {
+	m := map[string]string{}
+	for _, kv := range strings.Split(s, ",") {
+		if i := strings.Index(kv, "="); i > 0 {
+			m[kv[:i]] = kv[i+1:]
+		}
+	}
+	return m
 }
 
 // ---------------------------------------------------------------- requests over parsed programs
